@@ -40,6 +40,7 @@ class ObjGen:
             self.make_generics()
         else:
             self.gen_classes = []
+            self.slot_base = None
         return self
 
     def make_holder(self):
@@ -189,6 +190,22 @@ class ObjGen:
         stat = [f["n"] for f in cls["fields"] if f["static"]]
         if stat and r.random() < 0.7:
             ms.append(Method("made", [], P("int"), [Ret(Var(stat[0]))], static=True))
+        # peek(): a virtual method that reads every instance field visible in the class by bare name; constructors call it,
+        # so a base constructor reaches the most-derived override BEFORE the derived class's initialisers have run
+        c3, m3 = self.find_decl(base, "peek", []) if base else (None, None)
+        shown = [f for f in fields if f["t"] in (P("int"), P("long"), P("str"))]
+        text = S(nm + ".peek")
+        for f in shown:
+            text = Bin("+", Bin("+", text, S(" " + f["n"] + "=")), Var(f["n"]))
+        if m3 is None:
+            if r.random() < 0.5:
+                ms.append(Method("peek", [], P("str"), [Ret(text)], virtual=True))
+        elif r.random() < 0.75:
+            ms.append(Method("peek", [], P("str"), [Ret(text)], virtual=True, override=True))
+        if self.find_decl(nm, "peek", [])[1] is not None:
+            for ct in cls["ctors"]:
+                if r.random() < 0.5:
+                    ct["body"].append(Echo(MCall(This(), "peek", bare=r.random() < 0.5)))
 
     def make_generics(self):
         r = self.r
@@ -216,6 +233,18 @@ class ObjGen:
                                                          Ret(MCall(Var("bi"), "count"))])],
                         [Ctor([Param(P("T"), "it")], [Expr(FAsg(This(), "item", Var("it")))])], [], tparams=["T"])
             self.gen_classes.append(reg)
+        # a generic class (and a plain class below it) that INHERITS its destructor from a plain class of the hierarchy
+        self.slot_base = None
+        with_dtor = [c for c in self.order if any(self.classes[a]["dtor"] for a in self.ancestors(c))]
+        if with_dtor and r.random() < 0.7:
+            b = r.choice(with_dtor)
+            self.slot_base = b
+            slot = Class("Slot", b, [Field(P("T"), "item")], [Method("take", [], P("T"), [Ret(Var("item"))])],
+                         [Ctor([Param(P("T"), "it")], [Super(), Echo(S("Slot()")), Expr(FAsg(This(), "item", Var("it")))])], [], tparams=["T"])
+            self.gen_classes.append(slot)
+            if r.random() < 0.6:
+                self.gen_classes.append(Class("ISlot", "Slot", [Field(P("int"), "extra", I(4))], [],
+                                              [Ctor([], [Super(I(11)), Echo(S("ISlot()"))])], [], base_targs=[P("int")]))
 
     # ------------------------------------------------------------------ main
     def dyn_classes_for(self, static):
@@ -447,6 +476,18 @@ class ObjGen:
             b3 = [Decl(C("LBox", [P("int")]), "lb", New("LBox", S("L"), I(7), targs=[P("int")])),
                   Echo(Bin("+", MCall(Var("lb"), "show"), MCall(Var("lb"), "get"))), Echo(MCall(Var("lb"), "count"))]
             blocks.append(b3)
+        if getattr(self, "slot_base", None):
+            b4 = []
+            inner = [Decl(C("Slot", [P("int")]), "sl", New("Slot", I(3), targs=[P("int")])), Echo(MCall(Var("sl"), "take")), Echo(S("slot block end"))]
+            b4.append(Block(inner))
+            b4.append(Echo(S("after slot block")))
+            b4.append(Decl(C(self.slot_base), "viaBase", New("Slot", S("z"), targs=[P("str")])))
+            b4.append(Expr(Asg("viaBase", Null())))
+            b4.append(Echo(S("after release")))
+            if any(c["name"] == "ISlot" for c in self.gen_classes):
+                b4.append(Block([Decl(C("ISlot"), "isl", New("ISlot")), Echo(Bin("+", MCall(Var("isl"), "take"), Fld(Var("isl"), "extra")))]))
+                b4.append(Echo(S("after islot")))
+            blocks.append(b4)
         # which specialisation is created first (and from where) varies
         r.shuffle(blocks)
         return [st for b in blocks for st in b]
